@@ -157,6 +157,8 @@ def run(ctx):
                       "rejection only when glob.from() is a prefix of the path (or absent); a whitelist match passes")
     ctx.rule("R03.6", "every line of an ignore file / glob list reaches GitignoreBuilder::add_line unless it is empty or a comment, nothing ends the line "
                       "loop early except an add_line error; an empty per-directory node is inserted only when the directory has none yet")
+    ctx.rule("R03.7", "builders stay where they are: outside finish() nothing takes a directory's GitignoreBuilder (or its whole node) out of the trie, so an "
+                      "early `?` return between taking and putting back cannot lose the patterns loaded so far")
     ctx.rule("R03.5", "per-directory grouping: every GitignoreBuilder::add_line gets Some(applies_in) where applies_in is "
                       "get_applies_in_path(origin, file), and the compiled set is stored under that same directory's key")
 
@@ -321,6 +323,36 @@ def run(ctx):
                                         and not any(e[0] == "call" and strip_generics(e[1]).endswith("radix_trie::trie::insert") for e in q.ev)]
                 ctx.require(n_ins >= 1 and not absent_no_insert, "R03.6", "node-created-when-absent:" + fname, "a directory without a node gets one before lines are added",
                             body.loc(body.line), fail="IgnoreFilter::%s does not create the node of a directory that has none: its patterns are silently dropped" % fname)
+    except Skip:
+        pass
+
+    # ---- R03.7 nothing takes a builder / node out of the trie
+    try:
+        n_fn = 0
+        for fn in facts.crate_fns("ignore_files"):
+            if not fn.def_.startswith("ignore_files::filter::"):
+                continue
+            n_fn += 1
+            owner = fn.def_.split("::{closure")[0].split("::")[-1]
+            root = thir.root(fn)
+            if root is None:
+                continue
+            for c, nd in thir.calls_in(root):
+                sg = strip_generics(c)
+                if pathx.is_tracing(nd):
+                    continue
+                if sg.endswith(("Option::take", "mem::take", "mem::replace", "Option::replace", "Option::take_if")) and nd["a"] and pathx.desc(nd["a"][0]).endswith("builder"):
+                    ctx.violation("R03.7", "builder-taken:" + owner, "IgnoreFilter::%s takes the GitignoreBuilder out of its trie node (%s): an error return before it is put back "
+                                  "leaves the directory without a builder, and later ignore files of that directory are silently not compiled" % (owner, pathx.desc(nd["a"][0])),
+                                  fn.loc(nd["l"]))
+                if sg.startswith("radix_trie::") and sg.split("::")[-1] in ("remove", "remove_ancestor", "remove_subtrie"):
+                    ctx.violation("R03.7", "node-removed:" + owner, "IgnoreFilter::%s removes a node from the trie: an error return before it is re-inserted loses the "
+                                  "directory's patterns" % owner, fn.loc(nd["l"]))
+            for a in thir.find(root, "assign"):
+                if pathx.desc(a["a"]).endswith(".builder") and owner != "finish":
+                    ctx.violation("R03.7", "builder-overwritten:" + owner, "IgnoreFilter::%s overwrites a node's builder in place" % owner, fn.loc(a["l"]))
+        ctx.floor("R03.7", "functions of ignore_files::filter scanned", n_fn, 10)
+        ctx.ok("R03.7", "builders-stay", "no function of ignore_files::filter other than finish() takes or clears a node's builder, none removes a node")
     except Skip:
         pass
 
